@@ -144,6 +144,44 @@ fn ep_scanindex(b: &[u8]) {
     }
 }
 
+/// A reader that serves `data` and then fails on every further call (a
+/// persistently failing source, e.g. a directory handle or a dead pipe).
+struct ThenFail<'a> {
+    data: &'a [u8],
+    pos: usize,
+    kind: std::io::ErrorKind,
+}
+
+impl<'a> std::io::Read for ThenFail<'a> {
+    fn read(&mut self, buf: &mut [u8]) -> std::io::Result<usize> {
+        if self.pos >= self.data.len() {
+            return Err(std::io::Error::new(self.kind, "persistent failure"));
+        }
+        let n = (self.data.len() - self.pos).min(buf.len()).min(7);
+        buf[..n].copy_from_slice(&self.data[self.pos..self.pos + n]);
+        self.pos += n;
+        Ok(n)
+    }
+}
+
+fn ep_failing_readers(b: &[u8]) {
+    use std::io::ErrorKind::*;
+    for kind in [Other, InvalidData, UnexpectedEof, BrokenPipe] {
+        // cut the input at a few places so that the failure starts mid-line too
+        for cut in [0, b.len() / 2, b.len()] {
+            let r = ThenFail { data: &b[..cut], pos: 0, kind };
+            let _ = ScanIndex::from_reader(std::io::BufReader::with_capacity(16, r));
+            let mut r = ThenFail { data: &b[..cut], pos: 0, kind };
+            let _ = Digest::SHA1.hash_file(&mut r);
+            let mut r = ThenFail { data: &b[..cut], pos: 0, kind };
+            let _ = Digest::MD5.hash_patch(&mut r);
+            let mut r = ThenFail { data: &b[..cut], pos: 0, kind };
+            let mut st = SummaryStream::new();
+            let _ = std::io::copy(&mut r, &mut st);
+        }
+    }
+}
+
 fn ep_digest_name(b: &[u8]) {
     let Ok(s) = std::str::from_utf8(b) else { return };
     if let Ok(d) = Digest::from_str(s) {
@@ -183,7 +221,7 @@ fn ep_metadata(b: &[u8]) {
 }
 
 type Ep = fn(&[u8]);
-const EPS: [(&str, Ep); 11] = [
+const EPS: [(&str, Ep); 12] = [
     ("pattern", ep_pattern),
     ("dewey", ep_dewey),
     ("pkgname", ep_pkgname),
@@ -195,6 +233,7 @@ const EPS: [(&str, Ep); 11] = [
     ("scanindex", ep_scanindex),
     ("digest-name", ep_digest_name),
     ("metadata", ep_metadata),
+    ("failing-readers", ep_failing_readers),
 ];
 
 fn ep_index(name: &str) -> usize {
@@ -376,7 +415,8 @@ fn families() -> Vec<Family> {
     f.push(Family { name: "distinfo tokens", eps: vec![ep_index("distinfo")], alphabet: di, quick: 5, thorough: 6 });
     let mut si = toks(&["PKGNAME=", "ALL_DEPENDS=", "PKG_LOCATION=", "a-1", ":", "../../c/p", " ", "\n", "=", "p>=1", "99999999999999999999"]);
     si.push(vec![0xff]);
-    f.push(Family { name: "pbulk-index tokens", eps: vec![ep_index("scanindex")], alphabet: si, quick: 5, thorough: 6 });
+    f.push(Family { name: "pbulk-index tokens", eps: vec![ep_index("scanindex")], alphabet: si.clone(), quick: 5, thorough: 6 });
+    f.push(Family { name: "pbulk-index tokens through persistently failing readers", eps: vec![ep_index("failing-readers")], alphabet: si, quick: 3, thorough: 4 });
     f.push(Family {
         name: "digest names and metadata",
         eps: vec![ep_index("digest-name"), ep_index("metadata")],
@@ -408,6 +448,7 @@ fn seeds() -> Vec<Seed> {
     v.push(Seed { name: "distinfo fixture 2", eps: vec![ep_index("distinfo")], doc: include_bytes!("../../seeds/distinfo.2").to_vec() });
     v.push(Seed { name: "distinfo fixture 3", eps: vec![ep_index("distinfo")], doc: include_bytes!("../../seeds/distinfo.3").to_vec() });
     v.push(Seed { name: "pbulk-index, three records", eps: vec![ep_index("scanindex")], doc: include_bytes!("../../seeds/pbulk.seed").to_vec() });
+    v.push(Seed { name: "pbulk-index, one record, through failing readers", eps: vec![ep_index("failing-readers")], doc: include_str!("../../seeds/pbulk.seed").lines().take(6).map(|l| format!("{}\n", l)).collect::<String>().into_bytes() });
     v
 }
 
@@ -543,7 +584,9 @@ fn heavy_inputs(reps: usize) -> Vec<(usize, Vec<u8>)> {
 
 // ------------------------------------------------------------------ pkgdb trees
 
-const DB_SHAPES: [&[u8]; 9] = [b"foo", b"-1", b"a-", b"-", b"a-b-1.0nb2", b"x\xff-1", b"plainfile-1", b"broken-1", b"half-1"];
+const DB_SHAPES: [&[u8]; 12] = [
+    b"foo", b"-1", b"a-", b"-", b"a-b-1.0nb2", b"x\xff-1", b"plainfile-1", b"broken-1", b"half-1", b"dangling-1", b"loop-1", b"linked-1",
+];
 
 fn build_db(root: &Path, mask: u32) -> std::io::Result<()> {
     std::fs::create_dir_all(root)?;
@@ -553,6 +596,17 @@ fn build_db(root: &Path, mask: u32) -> std::io::Result<()> {
         }
         let p = root.join(OsStr::from_bytes(name));
         match *name {
+            b"dangling-1" => std::os::unix::fs::symlink("does-not-exist", &p)?,
+            b"loop-1" => std::os::unix::fs::symlink("loop-1", &p)?,
+            b"linked-1" => {
+                // a symbolic link to a complete package directory kept outside the database
+                let target = root.with_extension("linked-target");
+                std::fs::create_dir_all(&target)?;
+                for f in ["+COMMENT", "+CONTENTS", "+DESC"] {
+                    std::fs::write(target.join(f), b"x\n")?;
+                }
+                std::os::unix::fs::symlink(&target, &p)?;
+            }
             b"plainfile-1" => std::fs::write(&p, b"not a directory")?,
             b"broken-1" => {
                 // mandatory entries exist but are directories / not UTF-8
@@ -615,6 +669,7 @@ fn check_db(t: &mut Tally, scratch: &Path, mask: u32) {
         let _ = PkgDB::open(&root.join("does-not-exist")).map(|db| db.count());
     });
     let _ = std::fs::remove_dir_all(&root);
+    let _ = std::fs::remove_dir_all(root.with_extension("linked-target"));
     match r {
         Ok(()) => t.outcome("pkgdb/ok"),
         Err(m) => t.violation(Violation::new(
@@ -675,9 +730,9 @@ fn plan(thorough: bool) -> Plan {
         items.push(Item::Heavy { idx });
     }
     let mut m = 0u32;
-    while m < 512 {
-        items.push(Item::Pkgdb { lo: m, hi: m + 32 });
-        m += 32;
+    while m < 4096 {
+        items.push(Item::Pkgdb { lo: m, hi: m + 64 });
+        m += 64;
     }
     Plan { fams, seeds, shorts, heavy, items, thorough }
 }
@@ -995,15 +1050,17 @@ fn main() {
         "per entry point (pattern compile/match/best-match, Dewey, PkgName + Summary accessors, \
          PkgPath + Depend, Summary::from_str + SummaryVariable, SummaryStream write in 1 and 3 \
          chunks, Plist + all views + PlistEntry, Distinfo parse/write/lookup + EntryType, \
-         ScanIndex, Digest names, Metadata for all 14 entries, PkgDB over directory trees): \
+         ScanIndex, Digest names, Metadata for all 14 entries, PkgDB over directory trees, and the \
+         reader-taking entry points (ScanIndex::from_reader, hash_file, hash_patch, io::copy into a \
+         SummaryStream) over readers that fail persistently after serving a prefix): \
          (i) every string of <= k symbols over its own character / token alphabets; (ii) for each \
          seed document (full summary entry, 3-entry stream, packing list, the three fixture \
          distinfo files, a 3-record pbulk-index file, 150 dependency patterns and 150 package \
          names, one per shape, from the repository's fixtures) every prefix, every single-byte \
          deletion, every substitution from a 12-byte palette, every line duplication and every \
          two-cut splice; (iii) every digit run replaced by 19/20/40-digit runs and every token \
-         repeated 10^5 times (2*10^4 in the quick tier); (iv) all 512 package-database layouts \
-         over 9 directory shapes. Every call under catch_unwind with a watchdog (2 s, 10 s for \
+         repeated 10^5 times (2*10^4 in the quick tier); (iv) all 4096 package-database layouts \
+         over 12 directory shapes (incl. dangling, looping and valid symbolic links). Every call under catch_unwind with a watchdog (2 s, 10 s for \
          the long inputs), in a child process so that aborts are observed. Non-trivial = inputs \
          that are mutations, long, or contain NUL / bytes >= 0x80. Summary call sequences are \
          covered by C07's graph (every accessor in every reached state).",
